@@ -19,14 +19,14 @@ CLAIMS = {
  "C12": ("model_checking", "(a) hash law: hashValue on two symbolic values under one symbolic seed, maphash modelled as a chain of uninterpreted mixing functions: JSON-equal values must hash equal for every hash function and seed; (b) uniqueItems on symbolic arrays of mixed representations: verdict <=> no two elements are JSON-equal, over all seeds and collision patterns; (c) enum/const whose listed values are themselves symbolic: verdict <=> JSON equality with a listed value.", "§6 C12"),
  "C15": ("model_checking", "ApplyDefaults (real SSA, applied twice per path) on a symbolic instance: the inserted (location, key, value) triples are compared by SMT queries with the specification's insertion conditions (never a required property, present values untouched, declared default recursively completed, created containers hold at least one default, idempotent); validateDefaults with every default value symbolic: nil exactly when each default satisfies its declaring subschema.", "§6 C15"),
  "C10": ("model_checking", "Every feasible path of the harnesses that ends in a Go panic (explicit, assert, run-time error, reflect-model panic) or exhausts the step/depth budget is a violation candidate replayed natively under recover: Validate with every numeric Schema field symbolic incl. NaN/+-Inf and the full int range, instances in mixed representations over the structural skeletons of both drafts, ApplyDefaults on arbitrary JSON-shaped instances, Resolve over the reference topologies incl. missing documents.", "§6 C10"),
- "C13": ("other", "Sufficient condition decided by symbolic execution (not by enumerating schedules): on every path of Validate (and ApplyDefaults, except for the caller's instance) no store targets memory that existed before the call (Resolved, Schema tree, side tables, package-level variables) unless through a sync.Map; calls that write only call-local memory cannot race. Violations are confirmed natively by deep before/after comparison or under the race detector.", "§6 C13"),
- "C14": ("model_checking", "(a) the no-write premise of C13 extended to the instance; (b) Validate explored under every map iteration order (up to 4 keys per range) and with a symbolic hash seed/function: every path agrees with the order-independent reference verdict, hence the verdict is a function of schema and instance; native scaffold observations for Resolve purity and repeated Marshal.", "§6 C14"),
+ "C13": ("other", "Sufficient condition decided by symbolic execution (not by enumerating schedules): on every path of Validate (and ApplyDefaults, except for the caller's instance) no store targets memory that existed before the call (Resolved, Schema tree, side tables, package-level variables) unless through a sync.Map; calls that write only call-local memory cannot race. Violations are confirmed natively by deep before/after comparison or under the race detector. The same footprint analysis covers For/ForType with a shared ForOptions.TypeSchemas entry (real ForType executed in the engine; shared slices carry spare capacity, so in-place append/insert/copy is a write) and the process-wide field-name cache (a value stored into a sync.Map counts as published; later writes into it are violations).", "§0.3, §0.7, §6 C13"),
+ "C14": ("model_checking", "(a) the no-write premise of C13 extended to the instance; (b) Validate explored under every map iteration order (up to 4 keys per range) and with a symbolic hash seed/function: every path agrees with the order-independent reference verdict, hence the verdict is a function of schema and instance; (c) the real Resolve executed in the engine on concrete documents (incl. loader-supplied diamonds in mixed drafts) with every map range forked over its iteration orders: every order yields the same bases, URIs, reference targets and anchors; (d) orderedProperties.MarshalJSON leaves its PropertyOrder list and the spare capacity behind it unchanged for every symbolic list/property set. Native scaffold observations for Resolve purity and repeated Marshal.", "§0.3, §0.7, §6 C14"),
  "C18": ("model_checking", "Non-interference by havoc: in every Schema node all documented non-asserting fields and Extra are unconstrained symbolic values while Validate runs on a symbolic instance; the reference semantics ignores them, so any influence is a satisfiable verdict query. The unknown-keyword / letter-case clause lives inside encoding/json and is covered only by a native enumeration of case variants (scaffold).", "§6 C18"),
  "C17": ("model_checking", "Kernels executed from the real SSA with symbolic byte strings: K1 escape/unescape/parse agree with RFC 6901 for all keys and pointers within the length bounds; K2 dereferenceJSONPointer on a maximal schema (first segment every field name, second segment symbolic) returns exactly the subschema RFC 6901 designates, else an error; K3 percent-encoded pointers to every location of a maximal document resolve end to end and validate against the designated subschema for every instance.", "§6 C17"),
- "C16": ("model_checking", "Tag-parsing clause only: fieldJSONInfo (real SSA) vs encoding/json's own parseTag/isValidTag/tagOptions.Contains (real SSA of the standard library) on symbolic tag values: same omit decision, same name, same optionality on every path, each path class replayed against the real encoding/json. The clauses that quantify over Go types alone (fresh tree, determinism, cycles, pruning) run as a concrete scaffold over a declared type family and are reported, not solver-decided.", "§6 C16"),
- "C19": ("model_checking", "Real SSA of orderedProperties.MarshalJSON and basicChecks with symbolic property presence, symbolic PropertyOrder sequences (duplicates, absent names) and every map iteration order: emitted key sequence = listed-and-present names in list order then the rest ascending; duplicates rejected.", "§6 C19"),
- "C05": ("model_checking", "Behavioural equivalence of a schema and its JSON round trip decided for all instances of the template: both are resolved natively, imported, and the real Validate runs on both with one symbolic instance per path (schema documents of both drafts; Go-constructed Schema values with each exported field nil / empty / null constant / populated / nested, alone and in pairs). Kernels from the real SSA: integer.UnmarshalJSON against the 'integral and within int32' specification with encoding/json's number parsing as a contract stub; the struct+map splice and true/false folding of Schema.MarshalJSON with json.Marshal as a contract stub. Byte-identity of the second marshal and keyword survival are native scaffold observations.", "§6 C05"),
- "C20": ("exploration", "CloneSchemas executed from its real SSA in the engine (reflect model over the Schema struct; the package's field table computed by running its initialiser in the engine) on every tree shape of an enumerated family: each of the 23 subschema-bearing fields found from the Go types x {empty container, one node, two nodes} x a second field x a nested child; on the engine heap the clone shares no Schema object with the original, has the same shape and scalars, and shares non-schema slices; each path is repeated natively. There is no symbolic data, so the solver decides nothing: exploration level.", "§6 C20"),
+ "C16": ("model_checking", "Tag-parsing clause: fieldJSONInfo (real SSA) vs encoding/json's own parseTag/isValidTag/tagOptions.Contains (real SSA of the standard library) on symbolic tag values: same omit decision, same name, same optionality on every path, each path class replayed against the real encoding/json. The clauses that quantify over Go types alone (fresh tree, determinism, cycles, pruning) run as a concrete scaffold over a declared type family and are reported, not solver-decided; isolation from the caller's TypeSchemas is explored by running the real ForType in the engine with the override schemas as shared pre-state (stores, appends, inserts into them and differing results are violations).", "§0.3, §0.7, §6 C16"),
+ "C19": ("model_checking", "Real SSA of orderedProperties.MarshalJSON and basicChecks with symbolic property presence, symbolic PropertyOrder sequences (duplicates, absent names) and every map iteration order: emitted key sequence = listed-and-present names in list order then the rest ascending; duplicates rejected; the order list and its spare capacity are unchanged; the same holds after a Marshal that failed half-way (sync.Pool reuse forked).", "§0.3, §6 C19"),
+ "C05": ("model_checking", "Behavioural equivalence of a schema and its JSON round trip decided for all instances of the template: both are resolved natively, imported, and the real Validate runs on both with one symbolic instance per path (schema documents of both drafts; Go-constructed Schema values with each exported field nil / empty / null constant / populated / nested, alone and in pairs). Kernels from the real SSA: integer.UnmarshalJSON against the 'integral and within int32' specification with encoding/json's number parsing as a contract stub; the struct+map splice and true/false folding of Schema.MarshalJSON with json.Marshal as a contract stub. Byte-identity of the second marshal, keyword survival and reproduction of a document up to the documented normalisations are native scaffold observations.", "§0.3, §6 C05"),
+ "C20": ("exploration", "CloneSchemas executed from its real SSA in the engine (reflect model over the Schema struct; the package's field table computed by running its initialiser in the engine) on every tree shape of an enumerated family: each of the 23 subschema-bearing fields found from the Go types x {empty container, one node, two nodes} x a second field x a nested child; on the engine heap the clone shares no Schema object with the original, has the same shape and scalars, and shares non-schema slices; each path is repeated natively (pointer sets, titles and marshaled bytes of original and clone). There is no symbolic data, so the solver decides nothing: exploration level.", "§6 C20"),
  "C04": ("model_checking", "Types are enumerated (declared programs); per type the inferred schema is resolved natively and imported, the instance template is assumed to satisfy O-enc(T) - the encoding/json contract whose struct layer is observed on the real encoding/json by probe values - and every path of the real Validate must end in nil: covers all integers of each sized kind, nil/non-nil at every pointer and slice, every subset of omitted optional fields.", "§6 C04"),
  "C09": ("model_checking", "Per enumerated type, the instance is free; on every path with verdict nil the SMT query PC and not O-dec(T)(I) must be unsatisfiable (decoding with unknown fields disallowed; integers as integer literals within the 64-bit field's range); counterexamples are replayed with the real json.Decoder.", "§6 C09"),
 }
